@@ -25,15 +25,19 @@ struct AnyProvider {
     max_seen: [usize; K_TLV],
     /// number of TLVs this provider is willing to offer (<= K_TLV)
     limit: usize,
+    /// the room offered in the call that was answered with None (the last call), if there was one
+    last_max: Option<usize>,
 }
 
 impl ForwardedTLVProvider for AnyProvider {
     fn next_if_smaller(&mut self, max_size: usize) -> Option<ForwardedTLV<'_>> {
         if self.offered >= self.limit || !kani::any::<bool>() {
+            self.last_max = Some(max_size);
             return None;
         }
         // documented contract: never larger than max_size (a TLV has at least its 4-octet header)
         if max_size < 4 {
+            self.last_max = Some(max_size);
             return None;
         }
         let len: usize = kani::any();
@@ -75,7 +79,7 @@ fn announce_tx(limit: usize, allow_path_trace: bool) -> (usize, usize, bool, usi
     let own = port.port_identity;
     let mut provider = AnyProvider {
         buf: [0x5a; MAX_DATA_LEN], offered: 0, sizes: [0; K_TLV], from_parent: [false; K_TLV], types: [0; K_TLV],
-        parent: inst.parent_ds.parent_port_identity, max_seen: [0; K_TLV], limit,
+        parent: inst.parent_ds.parent_port_identity, max_seen: [0; K_TLV], limit, last_max: None,
     };
 
     let actions = run_actions!(port.handle_announce_timer(&mut provider));
@@ -132,6 +136,9 @@ fn announce_tx(limit: usize, allow_path_trace: bool) -> (usize, usize, bool, usi
         i += 1;
     }
     assert!(f.len == 64 + own_path_tlv + forwarded);
+    // the call that ended the forwarding loop was made with exactly the room left, too (in particular the very
+    // first call when nothing is forwarded: 1024 - 64 - the whole own PATH_TRACE TLV incl. its 4-octet header)
+    if let Some(m) = provider.last_max { assert!(m == MAX_DATA_LEN - 64 - own_path_tlv - forwarded); }
     (provider.offered, forwarded, provider.offered >= 1 && provider.sizes[0] == provider.max_seen[0], own_path_tlv)
 }
 
